@@ -171,7 +171,8 @@ SkinSum(bd, r, dev) ==
     IN PSumFrom(f, 1, NTiles(bd), PZero(BaySize(bd)))
 SkinUncut(bd, r, dev) == PlaceSegs(SkinMat(CompleteDef(bd.skin), r, dev), BaySize(bd), SkinSegs(bd))
 
-(* point loads on the 2-D parts of the stiffeners: r.forces[i] = [base |-> forces, flange |-> forces].
+(* point loads <<x, y, fx, fy, fz>> on the skin (r.skin: virtual work against the skin's series, on the
+   skin range) and on the 2-D parts of the stiffeners: r.forces[i] = [base |-> forces, flange |-> forces].
    The parts' series are the ones the stiffener classes construct: length a of the bay, width bb / bf,
    flange restrained along x like a simply supported plate and free along y; base free. *)
 F0000 == <<RZero, RZero, RZero, RZero>>
@@ -196,7 +197,8 @@ BayFext(bd, r) ==
                                             << Seg(OwnOff(bd, i), 0, nb) >>)
                           ELSE VZero(size)
                 IN VAdd(fl, ba)
-    IN VSumFrom(f, 1, Len(bd.stiffs), VZero(size))
+    IN VAdd(PlaceVecSegs(Fext(bd.skin, r.skin, <<>>, ROne), size, SkinSegs(bd)),
+            VSumFrom(f, 1, Len(bd.stiffs), VZero(size)))
 
 BayQuantity(bd, r, dev) ==
     CASE r.q = "size"  -> BaySize(bd)
